@@ -34,8 +34,12 @@ def classify(h, r):
     rejected_by_panic = False
     for f in r["failed"]:
         d = f["desc"]
-        if UNWIND_PAT.search(d):
-            inconc.append(("unwinding", d))
+        if UNWIND_PAT.search(d) or f.get("category") in ("unwind", "recursion"):
+            if getattr(h, "nonterm_is_violation", False):
+                # the harness body has no data-dependent loop: exceeding the bound means unbounded recursion / looping
+                tags.append(("NONTERM:" + d[:60], "%s:%s in %s" % (f["file"], f["line"], f["function"][:80])))
+            else:
+                inconc.append(("unwinding", d))
             continue
         m = re.search(r"VP:[A-Za-z0-9_\-:.]+", d)
         if m:
@@ -132,46 +136,24 @@ def main():
             print(h.name, h.domain, h.key)
         print(len(sel), "of", len(hs))
         return 0
-    # lay the harnesses out into files.  Only the selected harnesses are written: kani-compiler generates code for
-    # every harness it finds in a package, whatever --harness says, so unselected ones would only cost build time.
-    vh_mods = {}
-    inc = {}
+    # lay the harnesses out.  Only the harnesses of the group being run are written into the hook files: kani-compiler
+    # generates code for every harness it finds in a package, whatever --harness says.
+    ws.lock()
+    info = ws.sync()
+    modname = "verif_%s" % prop.lower()
+    groups = {}
     for h in sel:
-        if h.where == "vh":
-            vh_mods.setdefault(prop.lower(), []).append(h)
-            h.pkg = "vh"
-            h.path = "%s::%s" % (prop.lower(), h.name)
-        else:
-            crate, relp = h.where
-            inc.setdefault((crate, relp), []).append(h)
-            h.pkg = ws.PKG[crate]
-    includes = {}
-    gen_files = {}
-    for (crate, relp), lst in inc.items():
-        genname = "%s__%s__%s" % (prop.lower(), crate, relp.replace("/", "_").replace(".rs", ""))
-        modname = "verif_%s" % prop.lower()
-        includes[(crate, relp)] = genname
+        crate, relp = h.where
+        if relp not in ws.HOOKS.get(crate, []):
+            raise SystemExit("INCONCLUSIVE: %s/%s is not a hookable file (engine/ws.py HOOKS)" % (crate, relp))
+        h.pkg = ws.hpkg(crate)
         modpath = relp[len("src/"):-len(".rs")].replace("/", "::")
         if modpath.endswith("::mod"):
             modpath = modpath[:-5]
-        if modpath in ("lib",):
+        if modpath == "lib":
             modpath = ""
-        body = plan.get("incrate_prelude", {}).get((crate, relp), "")
-        for h in lst:
-            h.path = ("%s::%s::%s" % (modpath, modname, h.name)).lstrip(":")
-            body += model.render(h, "verif_stub_format") + "\n"
-        gen_files[genname] = ("#[allow(warnings)]\npub mod %s {\n  use super::*;\n  use std::mem::forget;\n"
-                              "  pub fn verif_stub_format(_a: std::fmt::Arguments<'_>) -> String { String::new() }\n%s\n}\n"
-                              % (modname, body))
-    # several properties share hooked files: merge with the includes of the other properties that are already
-    # generated (one include line per file, which includes a dispatcher file listing all properties' gen files)
-    all_includes = merge_includes(prop, includes, gen_files)
-    vh_files = build_vh(prop, vh_mods.get(prop.lower(), []), plan)
-    info = ws.sync(includes=all_includes, vh_files=vh_files)
-    # run, package by package
-    by_pkg = {}
-    for h in sel:
-        by_pkg.setdefault(h.pkg, []).append(h)
+        h.path = ("%s::%s::%s" % (modpath, modname, h.name)).lstrip(":")
+        groups.setdefault((crate, h.slice), []).append(h)
     caps = plan.get("caps", {})
     htimeout = caps.get(tier + "_timeout", 300 if tier == "quick" else 1200)
     rss = caps.get("rss_gb", 10)
@@ -179,18 +161,29 @@ def main():
     metas = []
     logdir = os.path.join(ws.CACHE, "logs")
     os.makedirs(logdir, exist_ok=True)
-    for pkg, lst in sorted(by_pkg.items()):
-        lp = os.path.join(logdir, "%s-%s-%s.log" % (prop, pkg, tier))
-        res, meta = kani.run_kani(pkg, [h.path for h in lst], jobs=a.jobs, harness_timeout=htimeout, rss_cap_gb=rss,
-                                  log_path=lp, wall_cap=caps.get(tier + "_wall", 3 * 3600))
-        meta["pkg"] = pkg
-        meta["log"] = lp
+    n = 0
+    for (crate, slc), lst in sorted(groups.items(), key=lambda kv: (kv[0][0], kv[0][1] or "")):
+        n += 1
+        gens = {}
+        for h in lst:
+            gens.setdefault(h.where[1], []).append(h)
+        texts = {}
+        for relp, hl in gens.items():
+            texts[relp] = model.module_text(prop, hl, plan.get("incrate_prelude", {}).get((crate, relp), ""))
+        ws.set_hooks(crate, texts)
+        tag = "%s-%s-%d-%s" % (prop, crate, n, tier)
+        extra = ["--no-default-features", "--features", slc] if slc else []
+        heavy = any(getattr(h, "heavy", False) for h in lst)
+        res, meta = kani.run_group(ws.hpkg(crate), lst, extra, min(a.jobs, caps.get("heavy_jobs", 5)) if heavy else a.jobs, htimeout,
+                                   caps.get("heavy_rss_gb", 10) if heavy else rss, os.path.join(logdir, tag), tag)
+        meta["slice"] = slc
+        meta["harnesses"] = len(lst)
         metas.append(meta)
         if meta["build_failed"]:
-            print("INCONCLUSIVE: cargo kani failed for package %s (see %s)" % (pkg, lp))
+            print("INCONCLUSIVE: cargo kani --only-codegen failed for package %s slice %s (see %s)" % (ws.hpkg(crate), slc, meta["build_log"]))
             print(meta.get("log_tail", "")[-3000:])
         for h in lst:
-            results[h.name] = res[h.path]
+            results[h.name] = res[h.name]
     # classify
     known = load_known()
     verdicts = {}
@@ -236,7 +229,7 @@ def main():
                 rp = None
                 ok = None
             else:
-                rp, ok, detail = replay_mod.confirm(prop, h, unknown, results[h.name], tier)
+                rp, ok, detail = replay_mod.confirm(prop, h, unknown, results[h.name], tier, plan)
             if ok or a.no_replay:
                 confirmed.append((h, unknown, rp))
             else:
@@ -299,9 +292,8 @@ def main():
             "known_findings_seen": sorted(printed),
             "solver_time_s": round(solver_s, 2), "symex_time_s": round(symex_s, 2),
             "queries_discharged": discharged,
-            "kani_version": metas[0]["kani_version"] if metas else None,
-            "cbmc_version": metas[0]["cbmc_version"] if metas else None,
-            "runs": [{k: m.get(k) for k in ("pkg", "wall_s", "rc", "timed_out", "killed", "build_failed")} for m in metas],
+            "tool_versions": kani.versions(),
+            "runs": [{k: m.get(k) for k in ("pkg", "slice", "harnesses", "build_wall_s", "verify_wall_s", "build_failed")} for m in metas],
             "repo_head": ws.repo_head(),
             "source_sha256_of_hooked_files": info["hooked_sha256"],
             "extracted": plan.get("extracted", {}),
@@ -320,91 +312,6 @@ def main():
     print("%s %s: %d harnesses, %d pass, %d known-finding, %d violation, %d nonreproducing, %d inconclusive; solver %.1fs wall %.0fs -> exit %d"
           % (prop, tier, len(sel), n_pass, n_known, len(confirmed), len(nonrepro), len(inconclusive), solver_s, wall, exit_code))
     return exit_code
-
-
-def merge_includes(prop, includes, gen_files):
-    """Each hooked source file gets ONE include line, pointing at a dispatcher file `hook__<crate>__<file>.rs` that
-    includes the per-property generated files that exist for it.  The per-property registry lives in GEN/registry.json."""
-    os.makedirs(ws.GEN, exist_ok=True)
-    regp = os.path.join(ws.GEN, "registry.json")
-    try:
-        with open(regp) as f:
-            reg = json.load(f)
-    except Exception:
-        reg = {}
-    # drop this property's previous entries
-    for k in list(reg.keys()):
-        reg[k] = [g for g in reg[k] if not g.startswith(prop.lower() + "__")]
-        if not reg[k]:
-            del reg[k]
-    for (crate, relp), genname in includes.items():
-        reg.setdefault("%s|%s" % (crate, relp), []).append(genname)
-    for genname, text in gen_files.items():
-        ws.write_if_changed(os.path.join(ws.GEN, genname + ".rs"), text)
-    out = {}
-    for k, gens in sorted(reg.items()):
-        crate, relp = k.split("|")
-        gens = [g for g in sorted(set(gens)) if os.path.exists(os.path.join(ws.GEN, g + ".rs"))]
-        if not gens:
-            continue
-        hook = "hook__%s__%s" % (crate, relp.replace("/", "_").replace(".rs", ""))
-        text = "".join('include!("%s/%s.rs");\n' % (ws.GEN, g) for g in gens)
-        ws.write_if_changed(os.path.join(ws.GEN, hook + ".rs"), text)
-        out[(crate, relp)] = hook
-    with open(regp, "w") as f:
-        json.dump(reg, f, indent=1, sort_keys=True)
-    return out
-
-
-VH_CARGO = """[package]
-name = "vh"
-version = "0.0.0"
-edition = "2024"
-
-[lib]
-path = "src/lib.rs"
-
-[dependencies]
-mech-core = { version = "0.3.5" }
-mech-interpreter = { version = "0.3.5" }
-mech-math = { version = "0.3.5" }
-mech-compare = { version = "0.3.5" }
-mech-logic = { version = "0.3.5" }
-mech-range = { version = "0.3.5" }
-mech-set = { version = "0.3.5" }
-nalgebra = "0.34.1"
-num-traits = { version = "0.2.19", default-features = false, features = ["libm"] }
-num-rational = "0.4.2"
-indexmap = "2.13.0"
-
-[lints.rust]
-unexpected_cfgs = { level = "allow" }
-"""
-
-
-def build_vh(prop, hs, plan):
-    """The external harness crate has one module file per property; lib.rs lists the modules that exist."""
-    files = {"Cargo.toml": VH_CARGO}
-    vh_src = os.path.join(ws.WS, "vh", "src")
-    os.makedirs(vh_src, exist_ok=True)
-    if hs:
-        body = plan.get("vh_prelude", "")
-        for h in hs:
-            body += model.render(h, "crate::verif_stub_format") + "\n"
-        files["src/%s.rs" % prop.lower()] = "#![allow(warnings)]\nuse std::mem::forget;\n" + body
-    mods = set(fn[:-3] for fn in os.listdir(vh_src) if re.fullmatch(r"c\d\d\.rs", fn))
-    if hs:
-        mods.add(prop.lower())
-    else:
-        mods.discard(prop.lower())
-        p = os.path.join(vh_src, prop.lower() + ".rs")
-        if os.path.exists(p):
-            os.remove(p)
-    lib = "#![allow(warnings)]\n#![feature(ptr_metadata)]\npub fn verif_stub_format(_a: std::fmt::Arguments<'_>) -> String { String::new() }\n"
-    for m in sorted(mods):
-        lib += "#[cfg(kani)] pub mod %s;\n" % m
-    files["src/lib.rs"] = lib
-    return files
 
 
 if __name__ == "__main__":
